@@ -140,6 +140,7 @@ Record oracle_total (orc : bytes -> bytes -> option bytes) : Prop := {
   ot_float : forall b t, not_miss (o_float orc b t);
   ot_f2i : forall k t, not_miss (o_f2i orc k t);
   ot_bfint : forall t, not_miss (o_int orc (bs "bfint") t);
+  ot_bfexp : forall t, not_miss (o_int orc (bs "bfexp") t);
   ot_text : forall fn a, not_miss (o_text orc fn a);
   ot_complex : forall b s, not_miss (o_complex orc b s);
   ot_unix : forall a, not_miss (o_time orc (bs "unix") a);
@@ -181,7 +182,7 @@ Lemma iface_scalar_settled orc opts w :
   oracle_total orc -> scalar_tok w = true -> wf_tok w = true ->
   settled (run_action orc SIface (apply_iface_opts opts (arm SIface w)) w).
 Proof.
-  intros [Of Oi Ob Ot Oc Ou Op] Hs Hw.
+  intros [Of Oi Ob Obe Ot Oc Ou Op] Hs Hw.
   destruct w as [ | | | | |neg|d|z|z|txt|c|str|b|g|y mo dd tm utc|h mi sec fr utc|ws|ws|n fs nx|k ws|k|w'];
     try discriminate; cbn in Hw |- *; try exact I.
   all: try (split_digit d Hw; exact I).
@@ -498,13 +499,18 @@ Proof.
     change (wrap_s 64 z) with (wrap_k KInt64 z). rewrite (in_range_int32_wrap64 z Hw). intros n; apply xeqv_plain_refl; reflexivity.
   - (* bigint <- d *) unfold bigint_of_double, of_o in Hr.
     destruct (o_text orc (bs "bf") txt) as [t1| |] eqn:E1; try discriminate.
+    destruct (o_int orc (bs "bfexp") txt) as [e| |] eqn:Ee; try discriminate.
+    destruct (Z.of_N max_bigint_bits <? e) eqn:El; [discriminate|].
     destruct (o_int orc (bs "bfint") txt) as [z| |] eqn:E2; try discriminate.
     destruct (o_text orc (bs "bf") (to_decZ z)) as [t2| |] eqn:E3; try discriminate.
     destruct (bytes_eqb t1 t2 || zero_text t1 && zero_text t2); [|discriminate]. inversion Hr; subst.
     assert (E : run_action orc SBigIntV (arm SBigIntV (WDouble txt)) (WDouble txt) =
-                lift (o_text orc (bs "bf") txt) (fun _ => lift (o_int orc (bs "bfint") txt) (fun z => SV (XPtr (XBigInt z)))))
+                lift (o_text orc (bs "bf") txt) (fun _ => lift (o_int orc (bs "bfexp") txt) (fun e =>
+                  if Z.of_N max_bigint_bits <? e then SE ECast
+                  else lift (o_int orc (bs "bfint") txt) (fun z => SV (XPtr (XBigInt z))))))
       by reflexivity.
-    eexists; split; [rewrite E, E1; cbn [lift]; rewrite E2; reflexivity | split; [reflexivity | intros ?n; apply xeqv_plain_refl; reflexivity]].
+    eexists; split; [rewrite E, E1; cbn [lift]; rewrite Ee; cbn [lift]; rewrite El, E2; reflexivity
+                    | split; [reflexivity | intros ?n; apply xeqv_plain_refl; reflexivity]].
   - (* bigint <- u *) destruct (parse_int c) as [z|] eqn:E; [|destruct c; discriminate]. inversion Hr; subst.
     assert (E0 : run_action orc SBigIntV (arm SBigIntV (WChar c)) (WChar c) = parse_str orc PBigInt 0 NtBigInt c) by reflexivity.
     eexists; split; [rewrite E0; unfold parse_str; rewrite E; reflexivity | split; [reflexivity | intros ?n; apply xeqv_plain_refl; reflexivity]].
@@ -520,14 +526,16 @@ Proof.
     assert (E : run_action orc SBigRatV (arm SBigRatV (WDouble txt)) (WDouble txt) = conv_float orc false NtBigRat txt) by reflexivity.
     eexists; split; [rewrite E; unfold conv_float; rewrite E1; cbn [lift]; rewrite E2; reflexivity
                     | split; [reflexivity | intros ?n; apply xeqv_plain_refl; reflexivity]].
-  - (* bigrat <- u *) unfold of_o in Hr. destruct (o_text orc (bs "rat") c) as [t1| |] eqn:E1; try discriminate;
+  - (* bigrat <- u *) unfold of_o in Hr. destruct (exponent_too_large max_text_exponent c) eqn:Ex; [discriminate|].
+    destruct (o_text orc (bs "rat") c) as [t1| |] eqn:E1; try discriminate;
       [|destruct c; discriminate]. inversion Hr; subst.
     assert (E : run_action orc SBigRatV (arm SBigRatV (WChar c)) (WChar c) = parse_str orc PBigRat 0 NtBigRat c) by reflexivity.
-    eexists; split; [rewrite E; unfold parse_str; rewrite E1; reflexivity | split; [reflexivity | intros ?n; apply xeqv_plain_refl; reflexivity]].
-  - (* bigrat <- s *) unfold of_o in Hr. destruct (o_text orc (bs "rat") str) as [t1| |] eqn:E1; try discriminate;
+    eexists; split; [rewrite E; unfold parse_str; rewrite Ex, E1; reflexivity | split; [reflexivity | intros ?n; apply xeqv_plain_refl; reflexivity]].
+  - (* bigrat <- s *) unfold of_o in Hr. destruct (exponent_too_large max_text_exponent str) eqn:Ex; [discriminate|].
+    destruct (o_text orc (bs "rat") str) as [t1| |] eqn:E1; try discriminate;
       [|destruct str; discriminate]. inversion Hr; subst.
     assert (E : run_action orc SBigRatV (arm SBigRatV (WStr str)) (WStr str) = parse_str orc PBigRat 0 NtBigRat str) by reflexivity.
-    eexists; split; [rewrite E; unfold parse_str; rewrite E1; reflexivity | split; [reflexivity | intros ?n; apply xeqv_plain_refl; reflexivity]].
+    eexists; split; [rewrite E; unfold parse_str; rewrite Ex, E1; reflexivity | split; [reflexivity | intros ?n; apply xeqv_plain_refl; reflexivity]].
   - (* time <- D *) cbn in Hw. unfold time_of_dval in Hr. rewrite Hw in Hr. inversion Hr; subst.
     assert (E : run_action orc STime (arm STime (WDate y mo dd tm utc)) (WDate y mo dd tm utc) = read_src orc STime RDate (WDate y mo dd tm utc)) by reflexivity.
     eexists; split; [rewrite E; cbn [read_src]; rewrite Hw; reflexivity | split; [destruct tm as [[[[? ?] ?] ?]|]; reflexivity|]].
@@ -560,7 +568,7 @@ Lemma simple_arm_refuses orc t s w :
   rep_scalar orc t (den w) = RNone -> fits_simple orc t w = true ->
   (exists e, run_action orc s (arm s w) w = SE e) \/ run_action orc s (arm s w) w = SDefaultArm.
 Proof.
-  intros [Of Oi Ob Ot Oc Ou Op] Ht Hs Hsc Hw Hr Hf.
+  intros [Of Oi Ob Obe Ot Oc Ou Op] Ht Hs Hsc Hw Hr Hf.
   destruct t; try discriminate; cbn in Hs; inversion Hs; subst s; clear Hs.
   all: destruct w as [ | | | | |neg|d|z|z|txt|c|str|b|g|y mo dd tm utc|h mi sec fr utc|ws|ws|n fs nx|k' ws|k'|w'];
     try discriminate; unfold rep_scalar in Hr; cbn [den] in Hr; cbv iota beta in Hr; try discriminate.
@@ -583,11 +591,13 @@ Proof.
     destruct (o_float orc false txt) as [f0| |]; cbn [lift]; try (eexists; reflexivity); try destruct Hn.
     destruct (o_text orc (bs "ratf") txt) as [t1| |]; try discriminate; try destruct Hn2.
   - (* bigrat <- u *) left. unfold of_o in Hr. pose proof (Ot (bs "rat") c) as Hn.
+    destruct (exponent_too_large max_text_exponent c) eqn:Ex; [discriminate|].
     assert (E : run_action orc SBigRatV (arm SBigRatV (WChar c)) (WChar c) = parse_str orc PBigRat 0 NtBigRat c) by reflexivity.
-    rewrite E. unfold parse_str. destruct (o_text orc (bs "rat") c) as [t1| |]; try discriminate. eexists; reflexivity.
+    rewrite E. unfold parse_str. rewrite Ex. destruct (o_text orc (bs "rat") c) as [t1| |]; try discriminate. eexists; reflexivity.
   - (* bigrat <- s *) left. unfold of_o in Hr. pose proof (Ot (bs "rat") str) as Hn.
+    destruct (exponent_too_large max_text_exponent str) eqn:Ex; [discriminate|].
     assert (E : run_action orc SBigRatV (arm SBigRatV (WStr str)) (WStr str) = parse_str orc PBigRat 0 NtBigRat str) by reflexivity.
-    rewrite E. unfold parse_str. destruct (o_text orc (bs "rat") str) as [t1| |]; try discriminate. eexists; reflexivity.
+    rewrite E. unfold parse_str. rewrite Ex. destruct (o_text orc (bs "rat") str) as [t1| |]; try discriminate. eexists; reflexivity.
   - (* time <- D *) cbn in Hw. unfold time_of_dval in Hr. rewrite Hw in Hr. discriminate.
   - (* time <- T *) cbn in Hw. unfold time_of_dval in Hr. rewrite Hw in Hr. discriminate.
   - (* uuid <- s *) destruct (uuid_syntax str); discriminate.
@@ -896,19 +906,19 @@ Lemma scalar_arm_good orc te t s w :
   scalar_tok w = true -> wf_tok w = true ->
   good te s t (run_action orc s (arm s w) w).
 Proof.
-  intros [Of Oi Ob Ot Oc Ou Op] Ht Hs Hsc Hw.
+  intros [Of Oi Ob Obe Ot Oc Ou Op] Ht Hs Hsc Hw.
   destruct t as [ |k| | | | | | | | | | | |e|n e|k0 v0|e| |n| ]; try discriminate; cbn in Hs; inversion Hs; subst s; clear Hs.
   all: destruct w as [ | | | | |neg|d|z|z|txt|c|str|b|g|y mo dd tm utc|h mi sec fr utc|ws|ws|n fs nx|k' ws|k'|w'];
     try discriminate.
   all: try (cbn in Hw; split_digit d Hw).
   all: try (destruct k).
-  all: cbn -[o_float o_text o_int o_complex o_time o_f2i lift go_parse_int go_parse_uint parse_int parse_bool uuid_syntax valid_date valid_clock Nat.eqb].
+  all: cbn -[o_float o_text o_int o_complex o_time o_f2i lift go_parse_int go_parse_uint parse_int parse_bool uuid_syntax valid_date valid_clock Nat.eqb exponent_too_large Z.ltb Z.of_N].
   all: try exact I; try reflexivity.
   all: unfold conv_float, unix_time, o_f2i.
   all: repeat first
     [ exact I | reflexivity
     | apply lift_time_good; [first [apply Ou | apply Op] | reflexivity]
-    | apply lift_good; [first [apply Of | apply Oi | apply Ob | apply Ot | apply Oc | apply Ou | apply Op] | intros ?]
+    | apply lift_good; [first [apply Of | apply Oi | apply Ob | apply Obe | apply Ot | apply Oc | apply Ou | apply Op] | intros ?]
     | match goal with |- good _ _ _ (match ?x with _ => _ end) => destruct x eqn:?E end
     | match goal with |- good _ _ _ (if ?x then _ else _) => destruct x eqn:?E end ].
   all: try (cbn [wf_tok] in Hw; congruence).
